@@ -52,6 +52,8 @@ class Env(object):
             n = Required(int)
             gs = Set(G)
         self.G, self.I, self.T = G, I, T
+        @db.on_connect(provider='sqlite')
+        def fast(db, connection): connection.execute('pragma synchronous = off')     # Pony's own hook for connection set-up; speed only
         db.bind('sqlite', path, create_db=True, **self.tr.bind_kwargs())
         db.generate_mapping(create_tables=True)
         self.entities = [G, I, T]
@@ -60,12 +62,14 @@ class Env(object):
             for a in e._attrs_: self.attrs.append(a)
         self.aid = {a: i for i, a in enumerate(self.attrs)}
         self.raw = sqlite3.connect(path, isolation_level=None)
+        self.raw.execute('pragma synchronous = off')
         self.tables = [r[0] for r in self.raw.execute("select name from sqlite_master where type='table' and name not like 'sqlite_%' order by name")]
 
     def reset(self):
         db = self.db
         db.disconnect()      # drop the pooled connection: the next session opens a new one (keeps runs independent)
         raw = self.raw
+        raw.execute('begin')
         for t in self.tables: raw.execute('delete from "%s"' % t)
         raw.execute('delete from sqlite_sequence')
         raw.execute('insert into "G" (id, a, b, lz) values (1, 10, 11, 12), (2, 20, NULL, NULL), (3, 30, 31, NULL)')
@@ -75,6 +79,7 @@ class Env(object):
         cols = [r[1] for r in raw.execute('pragma table_info("%s")' % link)]
         raw.execute('insert into "%s" (%s) values (?, ?), (?, ?)' % (link, ', '.join('"%s"' % c for c in cols)),
                     self._link_row(cols, 1, 1) + self._link_row(cols, 3, 2))
+        raw.execute('commit')
 
     @staticmethod
     def _link_row(cols, g, t):
@@ -133,7 +138,7 @@ def s_cancelled(E):
 def s_cancelled_conn(E):
     E.G[1]; n = E.G(a=5); E.I(g=n); n.delete()
 def s_failed_flush(E):
-    g = E.G[2]; g.items.load(); E.I(id=1, g=g); flush()          # INSERT collides with the row I[1]: the session fails inside flush()
+    g = E.G[2]; g.items.load(); E.I(id=1, g=g)                   # then flush(): the INSERT collides with the row I[1], the session fails inside flush()
 
 SCRIPTS = [('loaded_min', s_loaded_min), ('seed', s_seed), ('partial', s_partial), ('full', s_full), ('count', s_count),
            ('is_empty', s_is_empty), ('absent', s_absent), ('m2m_reverse', s_m2m_reverse), ('lazy', s_lazy), ('read', s_read),
@@ -219,25 +224,19 @@ def run_session(E, script, ending, strict):
         with db_session(strict=strict):
             R.cache = E.db._get_cache()
             name, fn = script
-            if name == 'failed_flush':
-                R.close_tie = False
-                try: fn(E)
-                finally:
-                    pass
-            else:
-                fn(E)
-                if ending == 'commit': commit()
+            fn(E)
+            if name != 'failed_flush' and ending == 'commit': commit()
             R.collect()
             R.live = R.snapshot()
             R.had_connection = R.cache.connection is not None
+            if name == 'failed_flush':
+                R.close_tie = False; R.had_connection = True
+                flush()
             if ending == 'rollback': rollback()
             elif ending == 'error': raise BodyError('body')
     except BodyError: outcome = 'BodyError'
     except core.TransactionIntegrityError:
         outcome = 'TransactionIntegrityError'
-    if R.live is None:
-        # the script itself failed (failed_flush): the objects are those the cache held; it is closed now, use the entities' own links
-        R.had_connection = True
     return R, outcome
 
 
@@ -457,9 +456,6 @@ def explore(ctx, E, scripts, stricts, ambients, target_limit=None):
                 for ambient in ambients:
                     R, how = run_session(E, script, ending, strict)
                     case = {'script': script[0], 'ending': ending, 'strict': strict}
-                    if R.live is None:
-                        # failed_flush: rebuild the object list from the entity objects reachable (cache.objects is gone)
-                        continue
                     det = canon_world(R.snapshot())
                     if R.close_tie and not ambient:
                         pending.append(({'op': 'close', 'world': canon_world(R.live), 'strict': strict, 'hadConnection': R.had_connection},
@@ -469,9 +465,16 @@ def explore(ctx, E, scripts, stricts, ambients, target_limit=None):
                     live_vals = R.live
                     targets = list(range(len(R.objs)))
                     if target_limit: targets = targets[:target_limit]
+                    dirty = False
                     for o_i in targets:
-                        o = R.objs[o_i]
-                        for op, fn, kind in ops_for(E, R, o):
+                        n_ops = len(ops_for(E, R, R.objs[o_i]))
+                        for op_i in range(n_ops):
+                            if dirty:
+                                # the previous operation changed the snapshot (read-bits apart): start again from a fresh finished session
+                                R, how = run_session(E, script, ending, strict); dirty = False
+                                ctx.count('session-rerun')
+                            o = R.objs[o_i]
+                            op, fn, kind = ops_for(E, R, o)[op_i]
                             pre = canon_world(R.snapshot()); xpre = R.extra()
                             dump_pre = E.dump()
                             m = E.tr.mark()
@@ -506,6 +509,7 @@ def explore(ctx, E, scripts, stricts, ambients, target_limit=None):
                                 d = {p[0]: p[1] for p in live_vals['objs'][o_i]['vals']}
                                 if op['attr']['id'] in d and not isinstance(d[op['attr']['id']], dict): live_val = {'value': d[op['attr']['id']]}
                             oracle(ctx, R, E, case, op, kind, o_i, pre, post, xpre, xpost, out, events, dump_pre, dump_post, ambient, live_val)
+                            if strip_rbits(post) != strip_rbits(pre): dirty = True
                             req = {'op': 'step', 'world': pre, 'obj': o_i, 'opr': {k: v for k, v in op.items() if k not in ('via', 'wc')}, 'ambient': ambient}
                             pending.append((req, out, post, full_case, nsel))
     return pending
@@ -587,6 +591,7 @@ def run(ctx):
         pending = explore(ctx, E, scripts, [False, True], [False, True], target_limit=None if ctx.thorough else 6)
         check_model(ctx, pending)
         witnesses(ctx, E)
+        ctx.extra['violation_keys'] = sorted(v['key'] for v in ctx.violations)
         ctx.extra['sessions'] = sum(v for k, v in ctx.counters.items() if k.startswith('ending:'))
     finally:
         E.close(); ponyutil.rmtree(work)
